@@ -4,9 +4,10 @@
    together with the projected result.  TLC computes the expected components / comments / rejection from the
    layout with the machine of Bf2Import (deviation switches OFF = what the property demands) and judges the event.
    A rejected event that is explained by one of the code's deviations is named after it.
-     import   items, enforce(0/1), kind("ok"/"raise"), comps [{desc, ids}], comments [[key, value]], bad(0/1)
+     import   items, enforce(0/1), kind("ok"/"raise"), why, comps [{desc, ids}], comments [[key, value]], bad(0/1)
      unpack   runs, kind, blocks [[adr, len, ids]], bad
      convert  runs, fmt, kind, ids, blocks, bad
+     parse    text, kind, objs [{k, name, val, params, lines}]      (character-level grammar of parse_bf2_file)
    bad = 1: some byte of a returned payload is not the byte the attributed source line carries there.
    NAMES_FILE: the library's hardware-id name table (data) as ndjson lines [id, chars].                      *)
 EXTENDS Bf2Import, Json, IOUtils
@@ -20,10 +21,15 @@ ImpMatch(ev, e) == IF e.err # "" THEN ev.kind = "raise"
                         /\ ev.comps = e.comps
                         /\ Len(ev.comments) = Cardinality(e.comments)
                         /\ {ev.comments[j] : j \in 1..Len(ev.comments)} = e.comments
+\* why: the driver's coarse reading of the exception (class / message); compared for information only ("soft:" clauses
+\* are statistics, not violations: the property demands a rejection, not a particular message)
+ReasonOk(why, err) == why = err \/ (why = "invalid-instruction" /\ err \in {"invalid-crc", "invalid-versiondesc", "invalid-firmware-comment"})
 ImportVerdict(ev) ==
     IF ev.bad = 1 THEN "payload-bytes-not-attributable"
     ELSE LET e0 == Import(ev.items, ev.enforce = 1, Names, Dev(FALSE, FALSE)) IN
-         IF ImpMatch(ev, e0) THEN "ok"
+         IF ImpMatch(ev, e0) THEN (IF ev.kind = "raise" /\ ev.why # "" /\ ~ReasonOk(ev.why, e0.err)
+                                      /\ \A d \in BOOLEAN, t \in BOOLEAN : ~ReasonOk(ev.why, Import(ev.items, ev.enforce = 1, Names, Dev(d, t)).err)
+                                   THEN "soft:reject-reason-differs:" \o e0.err ELSE "ok")
          ELSE IF ImpMatch(ev, Import(ev.items, ev.enforce = 1, Names, Dev(TRUE, FALSE))) THEN "unpack-drops-first-line-after-gap"
          ELSE IF ImpMatch(ev, Import(ev.items, ev.enforce = 1, Names, Dev(FALSE, TRUE))) THEN "skipped-section-data-retained"
          ELSE IF ImpMatch(ev, Import(ev.items, ev.enforce = 1, Names, Dev(TRUE, TRUE))) THEN "drop-after-gap+skipped-data-retained"
@@ -50,7 +56,15 @@ ConvertVerdict(ev) ==
          ELSE IF ev.kind = "raise" THEN "rejected-but-convertible"
          ELSE "content-differs"
 
+\* parse: text (characters of a small BF2 file), kind, objs = list(parse_bf2_file(text)) projected
+ParseVerdict(ev) ==
+    LET p == ParseText(ev.text) IN
+    IF ~p.ok THEN (IF ev.kind = "raise" THEN "ok" ELSE "accepted-malformed-text")
+    ELSE IF ev.kind # "ok" THEN "rejected-wellformed-text"
+    ELSE IF ev.objs = p.objs THEN "ok" ELSE "parsed-objects-differ"
+
 Verdict(ev) == IF ev.op = "import" THEN ImportVerdict(ev)
+               ELSE IF ev.op = "parse" THEN ParseVerdict(ev)
                ELSE IF ev.op = "unpack" THEN UnpackVerdict(ev)
                ELSE IF ev.op = "convert" THEN ConvertVerdict(ev)
                ELSE "unknown-op"
